@@ -2,7 +2,7 @@
    imaginary-power selector, and the classifier of the one open known
    finding (stack exhaustion on deep / long input), so that the line between
    "listed" and "new" is drawn by one Gallina definition. *)
-From FendV Require Import Base.Prelude Crash.Superscript.
+From FendV Require Import Base.Prelude Crash.Superscript Crash.Utf8.
 Open Scope N_scope.
 
 (* maximum bracket nesting reached while scanning the text *)
@@ -42,6 +42,15 @@ Definition run_crash : dispatcher := fun op args =>
   else if opeq op "ipow-sel" then
     match args with
     | [XA y] => Some (sx_res sx_N (ipow_selector (Z.to_N y)))
+    | _ => Some sx_bad
+    end
+  else if opeq op "completion-of" then
+    match args with
+    | [XS name; XS prefix] =>
+      Some (sx_res (fun o => match o with
+                             | Some (d, i) => XL [XS d; XS i]
+                             | None => XL []
+                             end) (completion_of name prefix))
     | _ => Some sx_bad
     end
   else if opeq op "deep-input" then
